@@ -7,7 +7,7 @@ R=${SEED_REPO:-/repo}
 mkdir -p /tmp/seedrun_v && cp known_findings.txt /tmp/seedrun_v/
 [ $# -eq 0 ] && set -- $(ls seeded | grep -v RESULTS)
 for s in "$@"; do
-  prop=${s#[RW][0-9]-}; prop=${prop%%-*}
+  prop=${s#[RW][0-9]-}; prop=${prop#[RW][0-9][0-9]-}; prop=${prop%%-*}
   git -C $R apply /verif/seeded/$s/patch.diff || { echo "== $s: applyfail"; git -C $R checkout -- .; continue; }
   if [ -n "$ALL" ]; then
     out=$(VERIF_DIR=/tmp/seedrun_v bin/mosverif all -repo $R 2>&1 | grep "^VIOLATION" | sed 's/ replay=.*//' | tr '\n' ' ')
